@@ -50,6 +50,18 @@ def menu(ctx: Ctx, rng: random.Random) -> list[dict]:
                                                 "via": ["deepcopy"]},
          "b": {"cls": "BBAN", "text": cps("370400440532013000"), "cc": cps("DE"), "via": ["pickle2"]}},
     ]
+    # bank keys with several entries of mixed primary flags whose first listed entry is not primary:
+    # lookups on them must not disturb each other (the registry is frozen)
+    import c12
+    seen = {}
+    for e in c12.raw_entries_full():
+        seen.setdefault((e["cc"], e["code"]), []).append(e)
+    mixed = [k for k, es in seen.items() if len(es) > 1 and not es[0]["primary"] and any(x["primary"] for x in es)
+             and k[0] == "DE"]
+    for cc, code in sorted(mixed)[:: max(1, len(mixed) // 3)][:3]:
+        b = code + "0000000000"
+        iban = cps(cc + gen.check_digits(cc, b) + b)
+        m += [{"op": "bic.lookup", "cc": cps(cc), "code": cps(code)}, {"op": "iban.bank", "t": iban}]
     return m
 
 
@@ -92,7 +104,12 @@ def run(ctx: Ctx) -> dict:
             flagged.append([sub[int(x) - 1] for x in mm.group(1).split(",") if x.strip()])
     # (B) every history of the model in the real code (long-lived processes; the digest
     # after each call must equal the post-import digest, so each history starts from it)
-    hists = [[i] for i in range(len(m))] + [list(p) for p in itertools.product(range(len(m)), repeat=2)]
+    pairs = [list(p) for p in itertools.product(range(len(m)), repeat=2)]
+    if ctx.quick:
+        tail = list(range(len(m) - 8, len(m)))          # always: everything against the lookup / bank calls
+        keep = [p for p in pairs if p[0] in tail or p[1] in tail]
+        pairs = keep + rng.sample([p for p in pairs if p not in keep], 700)
+    hists = [[i] for i in range(len(m))] + pairs
     sub = list(range(0, len(m), max(1, len(m) // 12)))[:12]
     triples = [list(p) for p in itertools.product(sub, repeat=3)]
     hists += triples if not ctx.quick else rng.sample(triples, 300)
@@ -105,7 +122,8 @@ def run(ctx: Ctx) -> dict:
     for h, r in zip(hists, results):
         steps = [{"out": c14.canon(s["out"]), "solo": solo_out[i], "acc": s["acc"], "census": s["census"]}
                  for i, s in zip(h, r["steps"])]
-        events.append({"i": len(events), "hist": h, "census0": r["census0"], "steps": steps})
+        events.append({"i": len(events), "hist": h, "census0": r["census0"], "steps": steps, "full0": r["full0"],
+                       "full_end": r["full_end"]})
     mism = calls.validate(ctx, "TraceHistory", [{k: v for k, v in e.items() if k != "hist"} for e in events], {},
                           "hist", per_shard=250)
     for e, clause, _ in mism:
@@ -114,7 +132,7 @@ def run(ctx: Ctx) -> dict:
             disc += 1                                   # a discipline note, not the property itself
             continue
         bad = next((n for n, s in enumerate(events[e["i"]]["steps"])
-                    if s["out"] != s["solo"] or s["census"] != events[e["i"]]["census0"]), 0)
+                    if s["out"] != s["solo"] or s["census"] != events[e["i"]]["census0"]), len(h) - 1)
         ctx.violate(clause, dict(key_of(m[h[bad]]), clause=clause),
                     {"history": [m[i] for i in h[:bad + 1]][-4:], "position": bad,
                      "got": events[e["i"]]["steps"][bad]["out"], "solo": events[e["i"]]["steps"][bad]["solo"]})
